@@ -14,6 +14,7 @@ import (
 	"github.com/quay/claircore"
 	"github.com/quay/claircore/internal/matcher"
 	"github.com/quay/claircore/libvuln"
+	"github.com/quay/claircore/libvuln/driver"
 	"github.com/quay/claircore/verifharness/internal/hx"
 )
 
@@ -33,6 +34,8 @@ type result struct {
 	panic   bool
 	leak    int // goroutines still alive after the call returned
 	nerrs   int // Match: number of joined errors
+	newErr  bool     // api "new": libvuln.New failed
+	built   []string // api "new": names of the matchers New constructed
 	elapsed time.Duration
 }
 
@@ -58,6 +61,13 @@ func call(w *world, procs int) result {
 		cancel()
 	}
 	var lv *libvuln.Libvuln
+	var built []string
+	if w.sc.api == "new" {
+		var err error
+		if lv, built, err = newLibvuln(w, base); err != nil {
+			return result{newErr: true}
+		}
+	}
 	if w.sc.api == "scan" {
 		var err error
 		lv, err = libvuln.New(base, &libvuln.Options{
@@ -88,7 +98,7 @@ func call(w *world, procs int) result {
 		switch w.sc.api {
 		case "enriched":
 			res.vr, res.err = matcher.EnrichedMatch(ctx, w.ir, w.matchers, w.enrichers, w.store)
-		case "scan":
+		case "scan", "new":
 			res.vr, res.err = lv.Scan(ctx, w.ir)
 		case "match":
 			res.vr, res.err = matcher.Match(ctx, w.ir, w.matchers, w.store)
@@ -103,6 +113,7 @@ func call(w *world, procs int) result {
 		return result{hang: true}
 	}
 	res.elapsed = time.Since(t0)
+	res.built = built
 	// "the call always terminates without leaking goroutines": everything the
 	// call started must be gone shortly after it returned.
 	deadline := time.Now().Add(3 * time.Second)
@@ -119,6 +130,55 @@ func call(w *world, procs int) result {
 		time.Sleep(20 * time.Microsecond)
 	}
 	return res
+}
+
+// newLibvuln calls the real libvuln.New with the scenario's options and the
+// scripted registry content.
+func newLibvuln(w *world, base context.Context) (*libvuln.Libvuln, []string, error) {
+	sc := w.sc
+	st := &setupState{factories: map[string]*factoryS{}, matchers: w.matchers, configured: map[string]bool{}}
+	for i := range sc.factories {
+		st.factories[sc.factories[i].name] = &sc.factories[i]
+	}
+	setSetup(st)
+	defer setSetup(nil)
+	opts := &libvuln.Options{
+		UpdaterSets:              []string{},
+		Enrichers:                w.enrichers,
+		DisableBackgroundUpdates: true,
+		UpdateRetention:          sc.nw.ret,
+		MatcherConfigs:           map[string]driver.MatcherConfigUnmarshaler{},
+	}
+	if sc.nw.store {
+		opts.Store = w.store
+	}
+	if sc.nw.client {
+		opts.Client = http.DefaultClient
+	}
+	if !sc.nw.namesNil {
+		opts.MatcherNames = append([]string{}, sc.nw.names...)
+	}
+	for _, n := range sc.nw.cfgs {
+		n := n
+		opts.MatcherConfigs[n] = func(v any) error {
+			if n == "rhel" && !sc.nw.rhelCfgOK {
+				return errScripted
+			}
+			return nil
+		}
+	}
+	for _, i := range sc.oot {
+		opts.Matchers = append(opts.Matchers, w.matchers[i])
+	}
+	lv, err := libvuln.New(base, opts)
+	if err != nil {
+		return nil, nil, err
+	}
+	var names []string
+	for _, m := range lv.MatchersForVerif() {
+		names = append(names, labelOf(m.Name()))
+	}
+	return lv, names, nil
 }
 
 func orDash(s string) string {
@@ -189,6 +249,8 @@ func canon(sc *scenario, res result) string {
 		return "hang"
 	case res.panic:
 		return "panic"
+	case res.newErr:
+		return "new-err"
 	}
 	if sc.api == "match" {
 		if res.vr == nil {
@@ -236,6 +298,38 @@ func oracle(w *world, res result) [][2]string {
 	}
 	w.mu.Lock()
 	defer w.mu.Unlock()
+	runs := sc.runSet()
+	if sc.api == "new" {
+		// libvuln.New: fails exactly when the options / a Configure demand it,
+		// and constructs exactly the enabled factories' matchers plus the
+		// out-of-tree ones
+		mustFail, idx, defaults := refConstructed(sc)
+		switch {
+		case mustFail && !res.newErr:
+			bad("", "libvuln.New-succeeded-although-its-options-or-a-factory's-Configure-must-make-it-fail")
+		case !mustFail && res.newErr:
+			bad("", "libvuln.New-failed-on-valid-options")
+		case !mustFail:
+			var want []string
+			for _, i := range idx {
+				want = append(want, fmt.Sprintf("m%d", i))
+			}
+			for _, d := range defaults {
+				want = append(want, "d:"+d)
+			}
+			if canonNames(want) != canonNames(res.built) {
+				bad("", "libvuln.New-constructed-matchers=[%s] want=[%s]", canonNames(res.built)[3:], canonNames(want)[3:])
+			}
+		}
+		if res.newErr {
+			return out
+		}
+		for i := range sc.matchers {
+			if !runs[i] && len(w.shown[i]) > 0 {
+				bad("", "matcher-%d-ran-although-no-enabled-factory-builds-it-and-it-is-not-out-of-tree", i)
+			}
+		}
+	}
 	anyFailed, anyRemoteKO := false, false
 	for i := range sc.matchers {
 		anyFailed = anyFailed || w.failed[i]
@@ -248,7 +342,7 @@ func oracle(w *world, res result) [][2]string {
 	wantRecs := recMultiset(wantRecords(sc))
 	allRan := !enriched || res.err == nil
 	for i := range sc.matchers {
-		if len(w.shown[i]) == 0 && (len(wantRecs) == 0 || !allRan) {
+		if !runs[i] || (len(w.shown[i]) == 0 && (len(wantRecs) == 0 || !allRan)) {
 			continue
 		}
 		if d := diffRecords(wantRecs, recMultiset(w.shown[i])); d != "" {
@@ -289,7 +383,7 @@ func oracle(w *world, res result) [][2]string {
 	}
 	vr := res.vr
 	// the reference union, computed from the scenario alone
-	if nf := refCheck(sc, vr, sc.ctx == "cancelled", enriched, bad); !enriched && nf != res.nerrs {
+	if nf := refCheck(sc, runs, vr, sc.ctx == "cancelled", enriched, bad); !enriched && nf != res.nerrs {
 		bad("", "Match-joined-%d-errors-but-%d-matchers-must-fail", res.nerrs, nf)
 	}
 	// ids resolve
@@ -440,7 +534,16 @@ func runScenario(r *hx.Run, rnd *hx.Rand, sc *scenario, procs []int, tag string)
 			first = obs
 			ls := sc.lines(tag)
 			for _, l := range ls[:len(ls)-1] {
-				r.Op(l, "ok", false)
+				switch {
+				case strings.HasPrefix(l, "new "):
+					no := "err"
+					if !res.newErr {
+						no = canonNames(res.built)
+					}
+					r.Op(l, no, true)
+				default:
+					r.Op(l, "ok", false)
+				}
 			}
 			// IndexRecords itself, against the model and against the reference
 			got := recsOfReal(w.ir.IndexRecords())
@@ -468,6 +571,31 @@ func ls0(sc *scenario, tag string) string {
 func classify(r *hx.Run, sc *scenario, w *world, res result, obs string) {
 	r.Count("api=" + sc.api)
 	r.Count("ctx=" + sc.ctx)
+	if sc.api == "new" {
+		fails, idx, defaults := refConstructed(sc)
+		switch {
+		case fails:
+			r.Count("new:must-fail")
+		default:
+			r.Count("new:constructed-scripted=" + bucket(len(idx)))
+			r.Count("new:constructed-defaults=" + bucket(len(defaults)))
+		}
+		for _, f := range sc.factories {
+			enabled := sc.nw.namesNil || hasStr(sc.nw.names, f.name)
+			switch {
+			case !enabled:
+				r.Count("new:factory-not-enabled")
+			case f.cfgable && hasStr(sc.nw.cfgs, f.name) && !f.cfgok:
+				r.Count("new:factory-configure-fails")
+			case f.cfgable && hasStr(sc.nw.cfgs, f.name) && f.cfgdErr, !(f.cfgable && hasStr(sc.nw.cfgs, f.name)) && f.plainErr:
+				r.Count("new:factory-build-fails(left-out)")
+			case f.cfgable && hasStr(sc.nw.cfgs, f.name):
+				r.Count("new:factory-built-configured")
+			default:
+				r.Count("new:factory-built")
+			}
+		}
+	}
 	switch {
 	case strings.HasPrefix(obs, "ok"):
 		r.Count("outcome=report")
